@@ -668,6 +668,77 @@ fn sv(xs: &[&str]) -> Vec<String> {
     xs.iter().map(|x| x.to_string()).collect()
 }
 
+/// `{wide_bar}` on a line that also has SIZED, non-truncating fields whose content outgrows their
+/// width at run time (`{pos:>2}` at 100, `{len:3}` at 10000, `{prefix:4}` with a long prefix): such a
+/// field renders as its whole content (C12), and the wide bar must size itself from what the rest of
+/// the line REALLY occupies: the line is never wider than the terminal and less than one cell short
+/// of it whenever the rest fits.  Oracle only (the rest of the line is computed from the property:
+/// a sized field = content padded to its width, or the whole content when longer).
+fn wide_next_to_sized_fields(s: &mut Session, r: &mut Rng, n: usize) {
+    use indicatif::{ProgressBar, ProgressDrawTarget, ProgressStyle};
+    use verif_harness::spy::Spy;
+    for i in 0..n {
+        let cw = if i % 3 == 2 { 2 } else { 1 };
+        let chars = pick_chars(r, cw, 3);
+        let (pos, len) = *r.pick(&[(3u64, 10u64), (99, 100), (100, 100), (1000, 1000), (12345, 99999), (7, 1000000)]);
+        let prefix = *r.pick(&["", "dl", "Downloading", "a-very-long-prefix"]);
+        let pw = *r.pick(&[0usize, 2, 4]);
+        let fw = *r.pick(&[1usize, 2, 3]);
+        let tw = r.range(1, 60) as u16;
+        let tpl = format!("{{prefix:{pw}}}[{{wide_bar}}] {{pos:>{fw}}}/{{len:{fw}}}");
+        let field = |t: &str, w: usize, right: bool| {
+            let k = UnicodeWidthStr::width(t);
+            if k >= w {
+                t.to_string()
+            } else if right {
+                format!("{}{}", " ".repeat(w - k), t)
+            } else {
+                format!("{}{}", t, " ".repeat(w - k))
+            }
+        };
+        let pre = format!("{}[", field(prefix, pw, false));
+        let suf = format!("] {}/{}", field(&pos.to_string(), fw, true), field(&len.to_string(), fw, false));
+        let desc = format!("wide-next-to-sized chars={:?} template={tpl:?} term_width={tw} prefix={prefix:?} pos={pos} len={len}", chars.concat());
+        let spy = Spy::new(tw, u16::MAX);
+        let sp = spy.clone();
+        let (ch, tp, pf) = (chars.concat(), tpl.clone(), prefix.to_string());
+        let res = catch(move || {
+            let pb = std::mem::ManuallyDrop::new(ProgressBar::with_draw_target(Some(len), ProgressDrawTarget::term_like(Box::new(sp.clone()))));
+            pb.set_style(ProgressStyle::with_template(&tp).unwrap().progress_chars(&ch));
+            pb.set_prefix(pf);
+            pb.set_position(pos);
+            sp.take();
+            pb.force_draw();
+            sp.take()
+        });
+        s.count(if UnicodeWidthStr::width(pos.to_string().as_str()) > fw || UnicodeWidthStr::width(prefix) > pw {
+            "wide-next-to-sized:a-field-overflows"
+        } else {
+            "wide-next-to-sized:fields-fit"
+        });
+        match res {
+            Err(e) => s.fail("panic", format!("drawing panicked: {e}"), desc.clone()),
+            Ok(ops) => {
+                let strs: Vec<String> = ops.iter().filter_map(|o| if let TOp::Str(t) = o { Some(t.clone()) } else { None }).collect();
+                if strs.len() == 2 {
+                    let line = &strs[0];
+                    let rest = UnicodeWidthStr::width(pre.as_str()) + UnicodeWidthStr::width(suf.as_str());
+                    let cols = UnicodeWidthStr::width(line.as_str());
+                    let twu = tw as usize;
+                    if !(line.starts_with(&pre) && line.ends_with(&suf)) {
+                        s.fail("wide-line-shape", format!("line {line:?} is not {pre:?} + bar + {suf:?}"), desc.clone());
+                    } else if rest <= twu && cols > twu {
+                        s.fail("wide-line-too-wide", format!("line is {cols} columns on a {twu}-column terminal (rest {rest}): {line:?}"), desc.clone());
+                    } else if rest <= twu && (cols + cw <= twu || (cw == 1 && cols != twu)) {
+                        s.fail("wide-line-too-narrow", format!("line is {cols} columns on a {twu}-column terminal (rest {rest}): {line:?}"), desc.clone());
+                    }
+                }
+            }
+        }
+        s.oracle_only(desc, true);
+    }
+}
+
 fn main() {
     let a = args();
     let header = "From IndModel Require Import Base BarGeom.\nOpen Scope N_scope.\n";
@@ -835,5 +906,6 @@ fn main() {
         s.evaluations,
         s.evaluations - coq
     ));
+    wide_next_to_sized_fields(&mut s, &mut r, if a.thorough { 3000 } else { 400 });
     s.finish();
 }
